@@ -342,7 +342,7 @@ def c02(tier, seed, work):
             dict(name="c02-mutate-exact", family="mutate", tier=tier, seed=seed, opts={"exact": True}),
             dict(name="c02-rekey", family="rekey", tier=tier, seed=seed)]
     muts = [("Mutant_Handshake_CheckRakp2.cfg", "C02_IncorrectPassword"), ("Mutant_Handshake_CheckStatus.cfg", "C02_OnlyIfAuthentic"),
-            ("Mutant_Handshake_CheckTag.cfg", "C02_OnlyIfAuthentic")]
+            ("Mutant_Handshake_CheckTag.cfg", "C02_OnlyIfAuthentic"), ("Mutant_Handshake_KeysPerCall.cfg", "C02_OnlyIfAuthentic")]
     return hs_check("C02", tier, seed, work, fams, mutants=muts if tier != "quick" else ())
 
 
